@@ -27,7 +27,25 @@ def main():
     args = [a for a in sys.argv[1:] if not a.startswith("--")]
     do_eval = "--eval" in sys.argv
     names = args or sorted(d for d in os.listdir(SEEDED) if os.path.isdir(os.path.join(SEEDED, d)))
+    jobs = 1
+    for a in sys.argv[1:]:
+        if a.startswith("--jobs="):
+            jobs = int(a.split("=")[1])
     rows = []
+
+    def evaluate(name):
+        d = os.path.join(SEEDED, name)
+        pid = name.split("-")[0]
+        ids = RELATED.get(pid, [pid])
+        p = subprocess.run([os.path.join(VERIF, "tools", "seed_eval.sh"), d, "quick"] + ids, capture_output=True, text=True)
+        return name, ids, p.stdout
+    results = {}
+    if do_eval:
+        from concurrent.futures import ThreadPoolExecutor
+        with ThreadPoolExecutor(max_workers=jobs) as ex:
+            for name, ids, out in ex.map(evaluate, names):
+                results[name] = (ids, out)
+                print(name, "evaluated", flush=True)
     for name in names:
         d = os.path.join(SEEDED, name)
         pid = name.split("-")[0]
@@ -46,10 +64,9 @@ def main():
                           "result": confirm},
         })
         if do_eval:
-            ids = RELATED.get(pid, [pid])
-            p = subprocess.run([os.path.join(VERIF, "tools", "seed_eval.sh"), d, "quick"] + ids, capture_output=True, text=True)
+            ids, stdout = results[name]
             det = {}
-            for line in p.stdout.splitlines():
+            for line in stdout.splitlines():
                 m = re.match(r"\S+ (C\d\d) quick rc=(\d+) VIOLATION=(\d+) NONCONFORMANCE=(\d+) ?(.*)", line)
                 if m:
                     det[m.group(1)] = {"rc": int(m.group(2)), "violations": int(m.group(3)), "nonconformance": int(m.group(4)),
@@ -57,6 +74,7 @@ def main():
             meta["evaluated"] = {"how": "tools/seed_eval.sh <seed> quick " + " ".join(ids) + " (checks run against a scratch worktree "
                                         "with the patch applied, VERIF_REPO)", "checks": det}
             meta["caught_by"] = sorted(k for k, v in det.items() if v["rc"] == 1)
+            meta["not_evaluated"] = sorted(set(ids) - set(det)) + sorted(k for k, v in det.items() if v["rc"] not in (0, 1))
             print(name, meta["caught_by"], flush=True)
         json.dump(meta, open(mp, "w"), indent=1)
         rows.append(meta)
